@@ -10,7 +10,7 @@ use serde_json::json;
 use std::collections::BTreeSet;
 
 /// (field type, `#[default(..)]` argument or "" for no attribute, reference value expression, kind)
-const EXPRS: [(&str, &str, &str, &str); 17] = [
+const EXPRS: [(&str, &str, &str, &str); 19] = [
     ("u8", "", "0u8", "none"),
     ("u8", "5", "5u8", "int-literal"),
     ("String", "\"abc\"", "String::from(\"abc\")", "string-literal"),
@@ -28,9 +28,12 @@ const EXPRS: [(&str, &str, &str, &str); 17] = [
     ("String", "S9", "String::from(\"s9\")", "const-str-path"),
     ("u8", "mk(4)", "4u8", "call"),
     ("u32", "p::C8", "9u32", "module-const-path"),
+    // conversions that exist ONLY as a hand-written `impl Into<Target> for Source` (no From)
+    ("Tgt", "SRC", "Tgt(3)", "into-only-const-path"),
+    ("Tgt", "\"three\"", "Tgt(5)", "into-only-string-literal"),
 ];
 
-const PRELUDE: &str = "pub mod p { pub const C8: u8 = 9; }\npub const C8: u8 = 9;\npub const S9: &str = \"s9\";\npub struct K;\nimpl K { pub const N: u32 = 11; }\n#[derive(Debug, PartialEq, Clone)] pub enum E { A, B }\npub fn mk(x: u8) -> u8 { x }\n";
+const PRELUDE: &str = "pub mod p { pub const C8: u8 = 9; }\npub const C8: u8 = 9;\npub const S9: &str = \"s9\";\npub struct K;\nimpl K { pub const N: u32 = 11; }\n#[derive(Debug, PartialEq, Clone)] pub enum E { A, B }\npub fn mk(x: u8) -> u8 { x }\npub struct Src;\npub const SRC: Src = Src;\n#[derive(Debug, PartialEq)] pub struct Tgt(pub u8);\nimpl ::core::convert::Into<Tgt> for Src { fn into(self) -> Tgt { Tgt(3) } }\nimpl<'a> ::core::convert::Into<Tgt> for &'a str { fn into(self) -> Tgt { Tgt(self.len() as u8) } }\n";
 
 #[derive(Clone, Debug)]
 struct Case {
@@ -342,7 +345,7 @@ fn build(c: &Case, tier: &str, bi: &Built) -> XCase {
 
 pub fn run(ctx: &Ctx, rep: &mut Report) {
     let thorough = ctx.tier.is_thorough();
-    rep.rule = "terminal state = (struct/enum shape, choice of #[default] variant(s) incl. none / several / a value on the variant attribute, per-field #[default(expr)] from 16 expression kinds with a bounded number of attributed fields, type-level value in {none, constructor call, path, string literal}, with or without bound(..) arguments sharing the attributes on a generic type, entry point); distinct by program text; non-trivial = at least one explicit value".into();
+    rep.rule = "terminal state = (struct/enum shape, choice of #[default] variant(s) incl. none / several / a value on the variant attribute, per-field #[default(expr)] from 18 expression kinds with a bounded number of attributed fields, type-level value in {none, constructor call, path, string literal}, with or without bound(..) arguments sharing the attributes on a generic type, entry point); distinct by program text; non-trivial = at least one explicit value".into();
     rep.assumptions = vec!["reference constructor: type-level value wins; else struct / #[default] variant / only variant with each field = its expression (through Into exactly for string literals and paths: field types are chosen so that a missing or superfluous Into does not compile) or Default::default(); compared by Debug text; rejected shapes (no / several default variants, value on a variant attribute) must expand to compile_error!".into()];
     let mut cases = Vec::new();
     let gens: [(&str, fn(&mut Ch, bool) -> Option<Case>); 3] = [("fields", gen_fields), ("variants", gen_variants), ("type-level", gen_type_level)];
